@@ -112,23 +112,30 @@ def load_known() -> list[dict]:
 def finish(ctx: Ctx, explanation: str, rule_summary: str, evidence_path: Optional[str] = None, write=True) -> int:
     """Print the report, write evidence + replay, return the exit code."""
     known = [k for k in load_known() if k.get("property") == ctx.prop and k.get("status") == "known"]
-    known_keys = {k["key"]: k for k in known}
+    known_keys = {}
+    for k in known:
+        for key in ([k["key"]] if "key" in k else []) + list(k.get("keys", [])):
+            known_keys[key] = k
     printed_known = []
     unlisted = []
     for v in ctx.violations:
         if v["key"] in known_keys:
             k = known_keys[v["key"]]
-            if k["key"] not in [p["key"] for p in printed_known]:
+            if not any(p is k for p in printed_known):
                 printed_known.append(k)
         else:
             unlisted.append(v)
     for i in ctx.infos:
         print(f"info: {i['file']}:{i['line']} rule={i['rule']} {i['msg']}")
+    seen_keys = {v["key"] for v in ctx.violations}
     for k in printed_known:
-        print(f"KNOWN-FINDING: property={ctx.prop} key={k['key']} {k['what']}")
-    stale = [k for k in known if k["key"] not in {v["key"] for v in ctx.violations}]
-    for k in stale:
-        print(f"note: known finding {k['key']} was not reproduced on this tree (it may have been repaired)")
+        ks = ([k["key"]] if "key" in k else []) + list(k.get("keys", []))
+        hit = [x for x in ks if x in seen_keys]
+        print(f"KNOWN-FINDING: property={ctx.prop} id={k.get('id', '')} {k['what']} [{len(hit)}/{len(ks)} listed construct(s) reproduced; input: {k.get('input', '')}]")
+    for k in known:
+        ks = ([k["key"]] if "key" in k else []) + list(k.get("keys", []))
+        if not any(x in seen_keys for x in ks):
+            print(f"note: known finding {k.get('id', ks[0])} was not reproduced on this tree (it may have been repaired)")
     replay_path = os.path.join(EVIDENCE_DIR, f"{ctx.prop}.replay.json")
     for v in unlisted:
         print(f"{v['file']}:{v['line']} rule={v['rule']} construct={v['construct']} :: {v['detail']}")
@@ -174,7 +181,7 @@ def finish(ctx: Ctx, explanation: str, rule_summary: str, evidence_path: Optiona
             "root": ctx.prog.root,
             "unresolved_calls": sorted(set(ctx.unresolved))[:60],
             "informational": ctx.infos[:60],
-            "known_findings_printed": [k["key"] for k in printed_known],
+            "known_findings_printed": [k.get("id") or k.get("key") for k in printed_known],
             "unlisted_violations": [{k: v[k] for k in ("rule", "construct", "detail", "file", "line", "key")} for v in unlisted],
             **ctx.extra,
         },
